@@ -317,6 +317,44 @@ fn c11_directed(ctx: &WorkerCtx) -> Result<(), Fail> {
         }
         st.class("directed: DurationTimeout with budgets of 0 .. 3 ms");
     }
+    // the front-end path: the same search as plugin hosts get it (through the stable interface of
+    // the plugin built from the tree), and the real referee loop of `chess-cli bot-fight`
+    if ctx.idx == 3 % ctx.n {
+        if crate::c15::plugin_available() {
+            let mut g = Expand(ctx.wseed(1113));
+            let mut roots: Vec<Pos> = ROOTS.iter().take(30).filter_map(|f| Pos::from_fen(f)).collect();
+            let mut tries = 0;
+            while roots.len() < 30 + ctx.tier.pick(40, 400) as usize && tries < 2_000_000 {
+                tries += 1;
+                let Some(p) = underpromotion_candidate(&mut g) else { continue };
+                let legal = p.legal();
+                let mates = mating_moves(&p, &legal);
+                if mates.iter().any(|m| m.promo == Some(P::Knight)) && mates.iter().all(|m| m.promo.is_some() && m.promo != Some(P::Queen)) {
+                    roots.push(p.mirror());
+                    roots.push(p);
+                }
+            }
+            for p in &roots {
+                let legal = p.legal();
+                for k in [0u64, 25, 400, 3000] {
+                    let case = json!({"plugin_evaluate": p.fen(), "k": k});
+                    ctx.about_to_run(&case);
+                    let mv = guarded(|| crate::c15::plugin_evaluate(p, k)).unwrap_or_else(Err).map_err(|d| Fail { case: case.clone(), detail: format!("C11 [through the plugin interface] {d}") })?;
+                    match mv {
+                        Some(m) if !legal.contains(&m) => {
+                            return Err(Fail { case, detail: format!("C11 [through the plugin interface] search of `{}` with the limit expiring at poll {k} hands the host {m}, which is not legal there (legal: [{}])", p.fen(), fmt_moves(&legal)) })
+                        }
+                        _ => {}
+                    }
+                    st.eval(1);
+                }
+            }
+            st.class_n("directed: searches through the plugin's stable interface (named roots and positions where only an underpromotion mates)", roots.len() as u64 * 4);
+            crate::c15::host_stage(&mut st, ctx.tier).map_err(|d| Fail { case: json!({"host_stage": true}), detail: d.replace("C15 ", "C11 ") })?;
+        } else {
+            st.class("front-end stage skipped: plugin not built");
+        }
+    }
     let mut g = Expand(ctx.wseed(1111));
     let mut made = 0;
     for _ in 0..400 {
@@ -345,6 +383,19 @@ pub const C11: CheckDef = CheckDef {
         run_proptest(ctx, 11, ctx.share(ctx.tier.pick(2_000, 30_000)), eng_strategy(22, 40), eng_json, move |c, st| c11_case(c, st, dense))
     },
     replay: |v| {
+        if v.get("host_stage").is_some() {
+            return crate::c15::host_stage(&mut Stats::new(), Tier::Quick);
+        }
+        if let Some(f) = v.get("plugin_evaluate").and_then(|x| x.as_str()) {
+            let p = Pos::from_fen(f).ok_or("bad fen")?;
+            let k = v["k"].as_u64().unwrap_or(0);
+            if let Some(m) = crate::c15::plugin_evaluate(&p, k)? {
+                if !p.legal().contains(&m) {
+                    return Err(format!("C11 [through the plugin interface] search of `{f}` with the limit expiring at poll {k} hands the host {m}, which is not legal there"));
+                }
+            }
+            return Ok(());
+        }
         if let Some(us) = v.get("duration_timeout_us").and_then(|x| x.as_u64()) {
             let fen = v["fen"].as_str().ok_or("fen")?;
             let pos = Pos::from_fen(fen).ok_or("bad fen")?;
@@ -551,6 +602,58 @@ fn c12_strategy() -> impl Strategy<Value = EngCase> {
 ///  (a) mates delivered by a CAPTURE that leaves only kings and minor pieces (the boundary
 ///      between the draw-by-material shortcut and mate detection);
 ///  (b) constructed many-move positions (the mating move may come very late in any move order).
+/// a pawn on the seventh whose promotion square is a knight's jump from the enemy king, the
+/// king hemmed in by its own men (candidate for "only a knight promotion mates")
+fn underpromotion_candidate(g: &mut Expand) -> Option<Pos> {
+    let mut p = Pos::empty();
+    p.full = 1;
+    p.turn = C::White;
+    let f = g.below(8) as i8;
+    let Some(pawn) = refchess::mk(f, 6) else { return None };
+    p.sq[pawn as usize] = Some((C::White, P::Pawn));
+    // promotion square: straight ahead (empty) or a capture on a neighbouring file
+    let cap = g.below(3) == 0;
+    let pf = if cap { f + if g.below(2) == 0 { 1 } else { -1 } } else { f };
+    let Some(promo) = refchess::mk(pf, 7) else { return None };
+    if cap {
+        p.sq[promo as usize] = Some((C::Black, [P::Rook, P::Bishop, P::Knight, P::Queen][g.below(4) as usize]));
+    }
+    let (df, dr) = refchess::KN[g.below(8) as usize];
+    let Some(bk) = refchess::mk(pf + df, 7 + dr) else { return None };
+    if p.sq[bk as usize].is_some() {
+        return None;
+    }
+    p.sq[bk as usize] = Some((C::Black, P::King));
+    for (nf, nr) in refchess::KG {
+        if let Some(s) = refchess::mk(refchess::fl(bk) + nf, refchess::rk(bk) + nr) {
+            if p.sq[s as usize].is_none() && g.below(5) < 3 {
+                let k = [P::Pawn, P::Knight, P::Bishop, P::Rook, P::Pawn][g.below(5) as usize];
+                if k != P::Pawn || (1..=6).contains(&(s / 8)) {
+                    p.sq[s as usize] = Some((C::Black, k));
+                }
+            }
+        }
+    }
+    let wk = g.below(24) as u8;
+    if p.sq[wk as usize].is_some() {
+        return None;
+    }
+    p.sq[wk as usize] = Some((C::White, P::King));
+    for _ in 0..g.below(3) {
+        let s = g.below(64) as u8;
+        if p.sq[s as usize].is_none() {
+            p.sq[s as usize] = Some((C::White, [P::Bishop, P::Rook, P::Queen, P::Knight][g.below(4) as usize]));
+            if !p.plausible() {
+                p.sq[s as usize] = None;
+            }
+        }
+    }
+    if !p.plausible() {
+        return None;
+    }
+    Some(p)
+}
+
 fn c12_directed(ctx: &WorkerCtx) -> Result<(), Fail> {
     let mut st = ctx.stats.borrow_mut();
     let mut g = Expand(ctx.wseed(1212));
@@ -633,52 +736,7 @@ fn c12_directed(ctx: &WorkerCtx) -> Result<(), Fail> {
     // enemy king a knight's jump from the promotion square, hemmed in by its own men)
     let mut under = 0u64;
     for _ in 0..ctx.tier.pick(40_000u64, 1_000_000) {
-        let mut p = Pos::empty();
-        p.full = 1;
-        p.turn = C::White;
-        let f = g.below(8) as i8;
-        let Some(pawn) = refchess::mk(f, 6) else { continue };
-        p.sq[pawn as usize] = Some((C::White, P::Pawn));
-        // promotion square: straight ahead (empty) or a capture on a neighbouring file
-        let cap = g.below(3) == 0;
-        let pf = if cap { f + if g.below(2) == 0 { 1 } else { -1 } } else { f };
-        let Some(promo) = refchess::mk(pf, 7) else { continue };
-        if cap {
-            p.sq[promo as usize] = Some((C::Black, [P::Rook, P::Bishop, P::Knight, P::Queen][g.below(4) as usize]));
-        }
-        let (df, dr) = refchess::KN[g.below(8) as usize];
-        let Some(bk) = refchess::mk(pf + df, 7 + dr) else { continue };
-        if p.sq[bk as usize].is_some() {
-            continue;
-        }
-        p.sq[bk as usize] = Some((C::Black, P::King));
-        for (nf, nr) in refchess::KG {
-            if let Some(s) = refchess::mk(refchess::fl(bk) + nf, refchess::rk(bk) + nr) {
-                if p.sq[s as usize].is_none() && g.below(5) < 3 {
-                    let k = [P::Pawn, P::Knight, P::Bishop, P::Rook, P::Pawn][g.below(5) as usize];
-                    if k != P::Pawn || (1..=6).contains(&(s / 8)) {
-                        p.sq[s as usize] = Some((C::Black, k));
-                    }
-                }
-            }
-        }
-        let wk = g.below(24) as u8;
-        if p.sq[wk as usize].is_some() {
-            continue;
-        }
-        p.sq[wk as usize] = Some((C::White, P::King));
-        for _ in 0..g.below(3) {
-            let s = g.below(64) as u8;
-            if p.sq[s as usize].is_none() {
-                p.sq[s as usize] = Some((C::White, [P::Bishop, P::Rook, P::Queen, P::Knight][g.below(4) as usize]));
-                if !p.plausible() {
-                    p.sq[s as usize] = None;
-                }
-            }
-        }
-        if !p.plausible() {
-            continue;
-        }
+        let Some(p) = underpromotion_candidate(&mut g) else { continue };
         let legal = p.legal();
         let mates = mating_moves(&p, &legal);
         if !mates.iter().any(|m| m.promo == Some(P::Knight)) {
